@@ -1,14 +1,14 @@
 package main
 
 import (
-	"os/exec"
-	"runtime/debug"
-	"runtime/pprof"
 	"encoding/json"
 	"flag"
 	"fmt"
 	"os"
+	"os/exec"
 	"path/filepath"
+	"runtime/debug"
+	"runtime/pprof"
 	"sort"
 	"strings"
 	"sync"
@@ -21,21 +21,23 @@ import (
 
 // Job describes one harness run (one exploration with its own solver).
 type Job struct {
-	ID       string `json:"id"`      // unique job name
-	Pkg      string `json:"pkg"`     // package path of the harness
-	Func     string `json:"func"`    // harness function
-	Unwind   int    `json:"unwind"`  // loop unwinding bound per frame (0 = none)
-	Steps    int    `json:"steps"`   // instruction budget per path
-	MaxPaths int    `json:"max_paths"`
-	PanicsOK bool   `json:"panics_ok"`
-	Shard    int    `json:"shard"`
-	NShards  int    `json:"nshards"`
-	Timeout  int    `json:"solver_timeout_ms"`
-	Threads  bool   `json:"threads"`
-	Switches int    `json:"max_switches"`
-	MaxEnum  int    `json:"max_enum"`
-	Solver   string `json:"solver"`
-	Seed     uint64 `json:"seed"`
+	ID                 string `json:"id"`     // unique job name
+	Pkg                string `json:"pkg"`    // package path of the harness
+	Func               string `json:"func"`   // harness function
+	Unwind             int    `json:"unwind"` // loop unwinding bound per frame (0 = none)
+	Steps              int    `json:"steps"`  // instruction budget per path
+	MaxPaths           int    `json:"max_paths"`
+	PanicsOK           bool   `json:"panics_ok"`
+	Shard              int    `json:"shard"`
+	NShards            int    `json:"nshards"`
+	Timeout            int    `json:"solver_timeout_ms"`
+	Threads            bool   `json:"threads"`
+	Switches           int    `json:"max_switches"`
+	MaxEnum            int    `json:"max_enum"`
+	Solver             string `json:"solver"`
+	Seed               uint64 `json:"seed"`
+	StopAfterViolation int    `json:"stop_after_violation"`
+	MaxWallS           int    `json:"max_wall_s"`
 }
 
 type JobResult struct {
@@ -268,7 +270,7 @@ func runJob(prog *ssa.Program, job Job, trace bool, logDir string) (res *JobResu
 	cfg := Config{
 		MaxUnwind: job.Unwind, MaxSteps: job.Steps, MaxPaths: job.MaxPaths, PanicsOK: job.PanicsOK,
 		Shard: job.Shard, NShards: job.NShards, Trace: trace, ThreadMode: job.Threads, MaxSwitches: job.Switches,
-		MaxEnum: job.MaxEnum, Seed: job.Seed,
+		MaxEnum: job.MaxEnum, Seed: job.Seed, StopAfterViolation: job.StopAfterViolation, MaxWallS: job.MaxWallS,
 	}
 	if cfg.MaxSteps == 0 {
 		cfg.MaxSteps = 2000000
